@@ -145,6 +145,18 @@ def method_body(src, struct, fn):
 
 AX = {"x": 0, "y": 1, "z": 2}
 
+# The one control-flow statement accepted: `if !(vN > 0.) { return; }` (comments already stripped). It is
+# rewritten to a marker statement before the body is split at `;`; any other `if`/`return`/brace is left in
+# place and refused as an unsupported statement.
+GUARD_MARK = "__guard_not_positive_return"
+GUARD_RE = re.compile(r"\bif\s*!\s*\(\s*(\w+)\s*>\s*0\.\s*\)\s*\{\s*return\s*;\s*\}")
+
+
+def mark_guards(body: str) -> str:
+    if GUARD_MARK in body:
+        raise TranslateError("reserved marker name used in the source")
+    return GUARD_RE.sub(lambda m: f"{GUARD_MARK} {m.group(1)};", body)
+
 
 class BodyTranslator:
     def __init__(self, kind, atoms, params):
@@ -153,6 +165,7 @@ class BodyTranslator:
         self.intnames = {}   # rust local integer name -> Lean Nat text
         self.lets = []
         self.outs = []
+        self.guard = None    # Lean Ex text of the early-return guard, if the body has one
 
     def nat_expr(self, e):
         """An i32 expression over the integer parameter, as Lean Nat text."""
@@ -198,6 +211,10 @@ class BodyTranslator:
                 if args != [("num", "1.5")]:
                     raise TranslateError(f"{self.kind}: powf with exponent other than 1.5: {args!r}")
                 return f"(.pow15 {self.ex(a)})"
+            if n == "clamp":
+                if args != [("neg", ("num", "1.")), ("num", "1.")]:
+                    raise TranslateError(f"{self.kind}: clamp with bounds other than (-1., 1.): {args!r}")
+                return f"(.clamp1 {self.ex(a)})"
             if n in ("sqrt", "sin", "cos", "acos", "ln"):
                 if args:
                     raise TranslateError(f"{n} arity")
@@ -223,6 +240,19 @@ class BodyTranslator:
         m = re.fullmatch(r"let\s+(\w+)\s*=\s*self\.exponent\.value", st)
         if m:
             self.intnames[m.group(1)] = "nExp"
+            return
+        m = re.fullmatch(GUARD_MARK + r"\s+(\w+)", st)
+        if m:
+            # `if !(vN > 0.) { return; }` among the lets: the body adds nothing unless vN > 0. The lets after it
+            # stay in `lets` (they have no side effects).
+            name = m.group(1)
+            if self.guard is not None:
+                raise TranslateError(f"{self.kind}: more than one early-return guard")
+            if self.outs:
+                raise TranslateError(f"{self.kind}: early-return guard after a gradient update")
+            if name not in {n for _, n, _ in self.lets}:
+                raise TranslateError(f"{self.kind}: guard on {name}, which is not an earlier let")
+            self.guard = self.names[name]
             return
         m = re.fullmatch(r"let\s+(\w+)\s*=\s*(.*)", st, flags=re.S)
         if m:
@@ -256,7 +286,7 @@ def translate_kind(kind, path, struct, atoms, params):
     if re.sub(r"\s+", " ", sig.strip()) != "&self, coordinates: &[Point], gradient: &mut Vec<Vector3D>":
         raise TranslateError(f"{struct}::add_gradient signature changed: {sig!r}")
     bt = BodyTranslator(kind, atoms, params)
-    for st in body.split(";"):
+    for st in mark_guards(body).split(";"):
         bt.statement(st)
     expected = sorted(3 * a + c for a in range(len(atoms)) for c in range(3))
     if sorted(s for s, _ in bt.outs) != expected:
@@ -279,6 +309,8 @@ def gen_grad() -> str:
         out.append(f"def {kind}Grad{arg} : Prog where")
         out.append("  lets := [" + ", ".join(f"({vid}, {kind}_{name}{app})" for vid, name, _ in bt.lets) + "]")
         out.append("  outs := [" + ", ".join(f"({slot}, {kind}_g{slot}{app})" for slot, _ in bt.outs) + "]")
+        if bt.guard is not None:
+            out.append(f"  guard := some {bt.guard}")
         out.append("")
     out.append("end OptRs.Gen")
     return "\n".join(out) + "\n"
